@@ -28,6 +28,10 @@ let showinc_line fixed l =
   let (incs, out) = (if fixed then extract_showincludes else extract_showincludes_pinned) (bytes_of_hex l) in
   "ok " ^ String.concat "," (List.map hex_of_bytes incs) ^ "|" ^ hex_of_bytes out
 
+let depfiledeps_line l =
+  if String.trim l = "-x" then "ok "
+  else show_outcome (fun ds -> String.concat "," (List.map hex_of_bytes ds)) (depfile_deps (bytes_of_hex l))
+
 let lastline_line l = "ok " ^ hex_of_bytes (find_last_line (bytes_of_hex l))
 
 let taskmsg_line fixed l =
@@ -390,7 +394,7 @@ let suites : (string * (string -> string)) list =
   [ ("canon_impl", canon_impl_line); ("canon", canon_line); ("canon_sem", sem_line);
     ("depfile", depfile_line true); ("depfile_pinned", depfile_line false);
     ("showincludes", showinc_line true); ("showincludes_pinned", showinc_line false);
-    ("lastline", lastline_line);
+    ("lastline", lastline_line); ("depfiledeps", depfiledeps_line);
     ("taskmsg", taskmsg_line true); ("taskmsg_pinned", taskmsg_line false);
     ("truncate", truncate_line); ("bar", bar_line); ("status", status_line);
     ("inv", inv_line); ("select", select_line); ("build", build_line);
